@@ -43,9 +43,10 @@ func runCaseInBubble(t *testing.T, c *Case) (res CaseResult) {
 	var cc Case
 	json.Unmarshal(b, &cc)
 	defer func() {
-		// A realm that the template fails to create (invalid URI) leaves its broker and dealer
-		// goroutines behind: newBroker/newDealer start them before newRealm validates the URI and
-		// nothing ever stops them. The bubble then cannot end; the observations are complete.
+		// Goroutines of the router still blocked after Router.Close keep the bubble from ending;
+		// the observations are complete by then. (Seen on trees before "fix: stop the broker and
+		// dealer of a realm that could not be created": a template realm with an invalid URI left
+		// its broker and dealer goroutines behind.)
 		if p := recover(); p != nil {
 			if strings.Contains(fmt.Sprint(p), "blocked goroutines remain") {
 				res.Leaked = true
@@ -160,6 +161,9 @@ func fixObs(o *Obs) {
 				s[1] = uint64(f)
 			}
 		}
+	}
+	if f, ok := o.Oracle["sid"].(float64); ok {
+		o.Oracle["sid"] = uint64(f)
 	}
 }
 
